@@ -20,7 +20,7 @@ use std::sync::Arc;
 use std::time::{Duration, Instant};
 
 #[derive(Clone, Debug, PartialEq)]
-pub enum Failure { None, Logp { chain: u64, eval: u64 }, MathCtor { chain: u64 }, Init { chain: u64 }, Storage { chain: u64, record: u64 }, RecoverableOnly { chain: u64, period: u64 }, InitRecoverable { chain: u64, n: u64 } }
+pub enum Failure { None, Logp { chain: u64, eval: u64 }, MathCtor { chain: u64 }, Init { chain: u64 }, Storage { chain: u64, record: u64 }, RecoverableOnly { chain: u64, period: u64 }, InitRecoverable { chain: u64, n: u64 }, InitAllRejected { chain: u64 } }
 
 #[derive(Clone)]
 pub struct TModel { pub dim: usize, pub seed: u64, pub failure: Failure, pub slow_chain: Option<u64> }
@@ -51,6 +51,8 @@ impl Model for TModel {
                 Failure::Init { chain: fc } if *fc == c => t.periodic = Some((1, FaultKind::Unrecoverable)),
                 // the first `n` density evaluations of the chain fail recoverably: the first initial points are rejected, a later one is fine
                 Failure::InitRecoverable { chain: fc, n } if *fc == c || *fc == u64::MAX => t = t.with_faults((0..*n).map(|k| (k, FaultKind::Recoverable)).collect()),
+                // every evaluation fails recoverably: all 500 initial points are rejected
+                Failure::InitAllRejected { chain: fc } if *fc == c => t.periodic = Some((1, FaultKind::Recoverable)),
                 Failure::RecoverableOnly { chain: fc, period } if *fc == c || *fc == u64::MAX => t.periodic = Some((*period, FaultKind::Recoverable)),
                 _ => {}
             }
@@ -272,7 +274,8 @@ pub fn gen_cfg(seed: u64, case: u64, tier: &str, mode: u8) -> Cfg {
     let total = num_tune + num_draws;
     let failure = if mode == 3 {
         let chain = r.below(num_chains as u64);
-        match case % 6 {
+        match case % 7 {
+            6 => Failure::InitAllRejected { chain },
             5 => Failure::InitRecoverable { chain: if r.coin() { chain } else { u64::MAX }, n: 1 + r.below(6) },
             0 => Failure::Logp { chain, eval: r.below(40 + 8 * total) },
             1 => Failure::MathCtor { chain },
@@ -314,7 +317,13 @@ pub fn check_case(cfg: &Cfg, mode: u8, case: u64, cases: &mut Cases, rep: &mut R
     let replay = json!({"kind": "ctl", "mode": mode, "case": case, "cfg": cfg.to_json()});
     if out.hang { rep.violation("ctl.hang", &format!("a call did not return / the sampler did not terminate ({})", out.result), replay.clone()); return; }
     if out.result.starts_with("panic") { rep.violation("ctl.panic", &format!("the calling thread panicked: {}", out.result), replay.clone()); return; }
-    let expect_err = matches!(cfg.failure, Failure::Logp { .. } | Failure::MathCtor { .. } | Failure::Init { .. } | Failure::Storage { .. });
+    let expect_err = matches!(cfg.failure, Failure::Logp { .. } | Failure::MathCtor { .. } | Failure::Init { .. } | Failure::Storage { .. } | Failure::InitAllRejected { .. });
+    // the initialisation retry loop against Model/InitRetry.lean: (rejected start points, outcome of every later attempt) -> how the chain ended
+    if let Some((nbad, last)) = match &cfg.failure { Failure::InitRecoverable { n, .. } => Some((*n, 0)), Failure::Init { .. } => Some((0, 1)), Failure::InitAllRejected { .. } => Some((0, 2)), _ => None } {
+        let observed = if out.result.contains("Unrecoverable error during initialization") { Some(1) } else if out.result.contains("All initialization points failed") { Some(2) }
+            else if out.result == "trace" { Some(0) } else { None };
+        if let Some(o) = observed { cases.line(&format!("init {case} {nbad} {last} {o}")); rep.hit("init_record"); }
+    }
     // was the failure actually reached? (a chain aborted early may never get there)
     // ... for a density fault: the failing evaluation index was reached by the faulty chain's density
     let fault_raised = matches!(cfg.failure, Failure::Logp { eval, .. } if out.fault_evals > eval);
